@@ -58,6 +58,16 @@ theorem herm_add_eps_psd (R : Matrix n n ℂ) (hR : R.IsHermitian) (ε : ℝ) (h
   exact hpsd
 
 
+section gentables
+open QGen.C17
+
+theorem prodTuples_two_join (A B : List String) :
+    (prodTuples [A, B]).map String.join = A.flatMap fun a => B.map fun b => a ++ b := by
+  simp only [prodTuples, List.map_flatMap, List.flatMap_map, List.map_map, List.flatMap_cons, List.flatMap_nil,
+    List.map_cons, List.map_nil, List.append_nil]
+  simp [String.join, List.map_eq_flatMap]
+end gentables
+
 section certhelpers
 variable {n : Nat}
 theorem toM_diag (v : Vec ℂ n) : (diag v).toM = diagonal (fun i => v.get i) := by
